@@ -348,7 +348,8 @@ Proof.
 Qed.
 
 (** the exact condition under which the `Quit` of the last handle is seen: the collector is inside
-    `wait` (or already notified) at the moment of the store; in every other case it is missed *)
+    `wait` (or already notified) at the moment of the quit's `notify_one` (see the header of
+    GcThread.v for the placement of the merged step); in every other case it is missed *)
 Theorem quit_outcome : forall c s s', Inv c s -> step c s ADropBegin = Some s' ->
   g_sig s = SRun -> g_refs s = 1 ->
   g_sig s' = SQuit /\ usable s' = 0 /\
